@@ -10,6 +10,7 @@ verus! {
 //@include prelude/batch_spec.rs
 //@include prelude/duration.rs
 //@include prelude/core_async.rs
+//@include prelude/codec_traits.rs
 //@include prelude/client_rt.rs
 
 //@map HashMap => HMap
